@@ -105,6 +105,13 @@ type w4World struct {
 
 	backups []w4Backup
 	nfile   int
+	conn            *w4MockConn
+	followerByQuery map[int64]*w4Follower
+	handler         *Handler
+	followers       []*w4Follower
+	nextQuery       int64
+	broadcasting    bool
+	broadcastPanic  string
 	aborted bool // a restart comparison failed: the rest of the run would only show consequences
 }
 
@@ -137,6 +144,7 @@ func (w *w4World) open(dbFile string) error {
 	}
 	w.db = db
 	w.dbFile = dbFile
+	w.rebindHandler()
 	return nil
 }
 
@@ -243,7 +251,12 @@ func w4Run(t *testing.T, r *verifsim.Run) {
 		w.clients = append(w.clients, cl)
 		go w.clientLoop(cl)
 	}
+	if nf := c.Intn(4, "followers"); nf > 0 {
+		w.initFollowers(nf)
+	}
+	r.Config["journal_followers"] = len(w.followers)
 	defer func() {
+		w.closeFollowers()
 		for _, cl := range w.clients {
 			close(cl.ch)
 		}
@@ -284,6 +297,24 @@ func w4Run(t *testing.T, r *verifsim.Run) {
 			acts = append(acts, act{"commit"})
 		}
 		acts = append(acts, act{"clock"})
+		// RawGetJournal and broadcastJournal take the handler's client-list mutex and may wait for a
+		// binlog commit while holding it; a second caller would wait on that mutex (not a durable
+		// block, the fake clock would freeze), so only one of them is in flight at a time
+		handlerBusy := w.broadcasting
+		for _, f := range w.followers {
+			handlerBusy = handlerBusy || f.busy
+		}
+		if !handlerBusy {
+			for _, f := range w.followers {
+				if w.followerIdle(f) {
+					acts = append(acts, act{"follow"})
+					break
+				}
+			}
+			if len(w.followers) > 0 {
+				acts = append(acts, act{"broadcast"})
+			}
+		}
 		if len(w.backups) < 2 && issued > 2 {
 			acts = append(acts, act{"backup"})
 		}
@@ -305,6 +336,29 @@ func w4Run(t *testing.T, r *verifsim.Run) {
 			}
 			issued++
 			cl.ch <- op
+		case "follow":
+			var idle []*w4Follower
+			for _, f := range w.followers {
+				if w.followerIdle(f) {
+					idle = append(idle, f)
+				}
+			}
+			w.gate = gated
+			w.startFollow(idle[c.Intn(len(idle), "follower")])
+		case "broadcast":
+			// second half of RawEditEntity (SaveEntity; broadcastJournal) as its own step
+			r.Sched("broadcast", "handler")
+			r.Event("handler", "broadcastJournal")
+			w.broadcasting = true
+			go func() {
+				defer func() {
+					if p := recover(); p != nil {
+						w.broadcastPanic = fmt.Sprint(p)
+					}
+					w.broadcasting = false
+				}()
+				w.handler.broadcastJournal()
+			}()
 		case "commit":
 			r.Sched("commit", "binlog")
 			ch := w.parked[0]
@@ -376,6 +430,14 @@ func w4Run(t *testing.T, r *verifsim.Run) {
 	if r.Failed() {
 		return
 	}
+	// followers: one last broadcast, then everybody polls until parked
+	if len(w.followers) > 0 {
+		w.handler.broadcastJournal()
+		w.finalFollowerCheck()
+		if r.Failed() {
+			return
+		}
+	}
 	// final restart comparison (C16) in every run
 	w.restart()
 }
@@ -432,6 +494,10 @@ func (w *w4World) collect() {
 		}
 	}
 	w.checkMaps()
+	if w.broadcastPanic != "" {
+		r.Fail("C15", "panic", "panic:broadcast", "broadcastJournal panicked: %s", w.broadcastPanic)
+	}
+	w.collectFollowers()
 }
 
 // drain completes everything in flight.
@@ -445,7 +511,11 @@ func (w *w4World) drain() {
 			close(ch)
 			continue
 		}
-		if len(w.idleClients()) == len(w.clients) {
+		followersBusy := w.broadcasting
+		for _, f := range w.followers {
+			followersBusy = followersBusy || f.busy
+		}
+		if len(w.idleClients()) == len(w.clients) && !followersBusy {
 			return
 		}
 		time.Sleep(100 * time.Millisecond)
